@@ -14,6 +14,7 @@ import (
 	"strings"
 
 	"github.com/grafana/cog/internal/ast"
+	"github.com/grafana/cog/internal/ast/compiler"
 	"github.com/grafana/cog/internal/jennies/golang"
 	"github.com/grafana/cog/internal/jennies/java"
 	"github.com/grafana/cog/internal/jennies/jsonschema"
@@ -72,23 +73,63 @@ func init() {
 			schemas := genSchemas(r, o)
 			c06BreakCycles(schemas)
 			lang := names[i%len(names)]
+			// the chain: a language's own chain, optionally followed by "final passes" that rewrite names and
+			// references in place (what Pipeline.finalPasses / common passes are), or an empty chain in one of
+			// its spellings (a language without passes, a nil FinalPasses, a Concat of two empty chains)
+			chain := langs[lang].CompilerPasses()
+			what := "lang=" + lang
+			switch r.intn(6) {
+			case 0:
+				switch r.intn(3) {
+				case 0:
+					chain, what = nil, "chain=nil"
+				case 1:
+					chain, what = compiler.Passes{}, "chain=empty"
+				default:
+					chain, what = compiler.Passes(nil).Concat(compiler.Passes{}), "chain=concat-of-empties"
+				}
+			case 1, 2:
+				var extra compiler.Passes
+				extra = append(extra, &compiler.PrefixObjectNames{Prefix: "Zz"})
+				if len(schemas) > 0 && schemas[0].Objects.Len() > 0 {
+					first := schemas[0].Objects.At(0)
+					extra = append(extra, &compiler.RenameObject{From: compiler.ObjectReference{Package: schemas[0].Package, Object: "Zz" + first.Name}, To: "Renamed"})
+				}
+				if r.chance(50) {
+					chain, what = chain.Concat(extra), what+"+prefix+rename"
+				} else {
+					chain, what = extra, "chain=prefix+rename"
+				}
+			}
 			before := virSchemas(schemas)
 			verdict := "ok"
 			status := "ok"
+			var result ast.Schemas
 			func() {
 				defer func() {
 					if rec := recover(); rec != nil {
 						status = "panic" // C04's business; the frame property is still checked below
 					}
 				}()
-				if _, err := langs[lang].CompilerPasses().Process(schemas); err != nil {
+				var err error
+				if result, err = chain.Process(schemas); err != nil {
 					status = "err"
 				}
 			}()
 			if after := virSchemas(schemas); after != before {
-				verdict = "FAIL " + lang + " chain modified the schemas it was handed: " + c07FirstDiff(before, after)
+				verdict = "FAIL " + what + " chain modified the schemas it was handed: " + c07FirstDiff(before, after)
+			} else if status == "ok" {
+				// what the chain returns belongs to the caller (veneers, jennies and later chains write into it):
+				// writing through every pointer of the result must not reach the schemas that were handed in
+				func() {
+					defer func() { _ = recover() }()
+					c07Scribble(result)
+				}()
+				if after := virSchemas(schemas); after != before {
+					verdict = "FAIL " + what + " result of the chain shares storage with the schemas it was handed (writing into the result changed the input): " + c07FirstDiff(before, after)
+				}
 			}
-			fmt.Fprintf(out, "-\tprocess-frame lang=%s status=%s input=%s\t%s\n", lang, status, before, verdict)
+			fmt.Fprintf(out, "-\tprocess-frame %s status=%s input=%s\t%s\n", what, status, before, verdict)
 		}
 		return nil
 	})
@@ -204,3 +245,97 @@ func c07FirstDiff(a, b string) string {
 	return strings.NewReplacer("\t", " ", "\n", " ").Replace(fmt.Sprintf("…%s… vs …%s…", a[lo:hiA], b[lo:hiB]))
 }
 
+
+// c07Scribble writes through every pointer, slice and map reachable from the schemas.
+func c07Scribble(schemas ast.Schemas) {
+	for _, s := range schemas {
+		if s == nil {
+			continue
+		}
+		s.Package += "_w"
+		s.EntryPoint += "_w"
+		c07ScribbleType(&s.EntryPointType)
+		if s.Objects == nil {
+			continue
+		}
+		var keys []string
+		s.Objects.Iterate(func(k string, obj ast.Object) {
+			keys = append(keys, k)
+			c07ScribbleType(&obj.Type)
+			for i := range obj.Comments {
+				obj.Comments[i] += "_w"
+			}
+			for i := range obj.PassesTrail {
+				obj.PassesTrail[i] += "_w"
+			}
+		})
+		s.AddObject(ast.NewObject(s.Package, "ScribbledNewObject", ast.String()))
+		if len(keys) > 0 {
+			s.Objects.Remove(keys[0])
+		}
+		s.Objects.Sort(func(a, b string) bool { return a > b })
+	}
+}
+
+func c07ScribbleType(t *ast.Type) {
+	t.Nullable = !t.Nullable
+	if t.Hints != nil {
+		t.Hints["scribbled"] = "w"
+	}
+	for i := range t.PassesTrail {
+		t.PassesTrail[i] += "_w"
+	}
+	if l, ok := t.Default.([]any); ok && len(l) > 0 {
+		l[0] = "scribbled"
+	}
+	if m, ok := t.Default.(map[string]any); ok {
+		m["scribbled"] = "w"
+	}
+	switch {
+	case t.Ref != nil:
+		t.Ref.ReferredType += "_w"
+		t.Ref.ReferredPkg += "_w"
+	case t.ConstantReference != nil:
+		t.ConstantReference.ReferredType += "_w"
+	case t.Array != nil:
+		c07ScribbleType(&t.Array.ValueType)
+	case t.Map != nil:
+		c07ScribbleType(&t.Map.IndexType)
+		c07ScribbleType(&t.Map.ValueType)
+	case t.Struct != nil:
+		for i := range t.Struct.Fields {
+			t.Struct.Fields[i].Name += "_w"
+			for j := range t.Struct.Fields[i].Comments {
+				t.Struct.Fields[i].Comments[j] += "_w"
+			}
+			c07ScribbleType(&t.Struct.Fields[i].Type)
+		}
+	case t.Disjunction != nil:
+		t.Disjunction.Discriminator += "_w"
+		if t.Disjunction.DiscriminatorMapping != nil {
+			t.Disjunction.DiscriminatorMapping["scribbled"] = "w"
+		}
+		for i := range t.Disjunction.Branches {
+			c07ScribbleType(&t.Disjunction.Branches[i])
+		}
+	case t.Intersection != nil:
+		for i := range t.Intersection.Branches {
+			c07ScribbleType(&t.Intersection.Branches[i])
+		}
+	case t.Enum != nil:
+		for i := range t.Enum.Values {
+			t.Enum.Values[i].Name += "_w"
+			c07ScribbleType(&t.Enum.Values[i].Type)
+		}
+	case t.Scalar != nil:
+		t.Scalar.ScalarKind += "_w"
+		for i := range t.Scalar.Constraints {
+			t.Scalar.Constraints[i].Op += "_w"
+			if len(t.Scalar.Constraints[i].Args) > 0 {
+				t.Scalar.Constraints[i].Args[0] = "scribbled"
+			}
+		}
+	case t.ComposableSlot != nil:
+		t.ComposableSlot.Variant += "_w"
+	}
+}
